@@ -675,6 +675,7 @@ func childSeq(o *output) {
 	childBytePoolSeq(o)
 	childBytePoolResize(o)
 	cryptoShared(o, false)
+	returnedContainers(o, false)
 }
 
 func randomSpec(r *mrand.Rand, id int, big bool) pipeSpec {
